@@ -114,6 +114,12 @@ def generate(rng, tier):
                         for method in (METHODS if tier == "thorough" or (fail == "none" and pk == "debuginfo")
                                        else [rng.choice(METHODS), "GET"]):
                             cases.append(mk(attr, via, ov, fail, pk, method))
+    # two requests in a row under a server that keeps the settings in the process environment (uWSGI), no override set
+    # there: what the first application's attribute said must not reach the second request
+    for a1 in ("true", "false", "default"):
+        for a2 in ("true", "false", "default"):
+            for fail, pk in (("endpoint", "hit"), ("none", "debuginfo"), ("before", "unknown")):
+                cases.append("C20 seq %s %s %s %s" % (a1, a2, fail, pk))
     return cases
 
 
@@ -134,7 +140,9 @@ def do_request(case):
         env["CONTENT_LENGTH"] = "not-a-number-" + SECRET
     saved = os.environ.get("poor_Debug")
     try:
-        if via == "environ":
+        if via == "environ-uwsgi":
+            env["uwsgi.version"] = "2.0"          # the settings are looked up in the process environment; none is set
+        elif via == "environ":
             if ov is not None:
                 env["poor_Debug"] = ov
         else:
@@ -174,7 +182,10 @@ def observe(case):
             if t[2] != "-":
                 env["poor_Debug"] = unhx(t[2]).decode()
             return "1" if SimpleRequest(env, A()).debug else "0"
-        r = do_request(case)
+        if t[1] == "seq":
+            r = do_seq(case)[0]
+        else:
+            r = do_request(case)
         return "%s %d" % (r[0].split()[0], len(r[1]))
     except Exception as err:
         return excname(err)
@@ -184,8 +195,42 @@ LEAKS = [SECRET, "Traceback", "RuntimeError", "ValueError", "verif_secret_", "ha
          "verif-server/9.9", "wsgi.errors", "uri_handler", "Exception Traceback"]
 
 
+def do_seq(case):
+    """-> (status, body) of the second request, and what the process environment holds afterwards"""
+    t = case.split()
+    a1, a2, fail, pk = t[2], t[3], t[4], t[5]
+    saved = os.environ.pop("poor_Debug", None)
+    try:
+        res = None
+        for attr in (a1, a2):
+            res = do_request(mk(attr, "environ", None, fail, pk, "GET").replace(" environ ", " environ-uwsgi ", 1))
+        return res, os.environ.get("poor_Debug")
+    finally:
+        os.environ.pop("poor_Debug", None)
+        if saved is not None:
+            os.environ["poor_Debug"] = saved
+
+
 def oracle(case):
     t = case.split()
+    if t[1] == "seq":
+        res, left = do_seq(case)
+        if res is None or res[0].startswith("escaped"):
+            return []
+        status, body, attr, _ = res
+        out = []
+        if attr != "true":
+            for leak in LEAKS + [_st["root"]]:
+                if leak in body:
+                    out.append(Violation("c20-seq-leak", case, "after a request to an application with debug %s, a request to one "
+                                         "with debug %s (no override anywhere) contains %r" % (t[2], t[3], leak)))
+                    break
+            if t[5] == "debuginfo" and not status.startswith("404"):
+                out.append(Violation("c20-seq-debuginfo", case, "/debug-info answered %s to an application with debug off" % status))
+        if left is not None:
+            out.append(Violation("c20-seq-environ", case, "poor_Debug=%r was written into the process environment: an override "
+                                 "nobody set, which outranks the attribute of every later request" % left))
+        return out
     if t[1] == "debug":
         ov = None if t[2] == "-" else unhx(t[2]).decode()
         want = (ov.lower() == "on") if ov else t[3] == "1"
@@ -225,6 +270,8 @@ def classify(case, obs):
     t = case.split()
     if t[1] == "debug":
         return "flag-" + obs
+    if t[1] == "seq":
+        return "seq-%s-%s" % (t[4], t[5])
     if t[5] == "none" and t[6] == "hit":
         return "trivial-plain-hit"
     return "%s-%s-%s" % (t[5], t[6], obs.split()[0])
